@@ -36,7 +36,9 @@ func verif_contract_Session_DHCPv4Update(h *Session, mac net.HardwareAddr, ip ne
 	vRequires(VerifSpecSessionOK(h))
 	vCanary()
 	vModifiesMems("packet.Host", "packet.MACEntry", "packet.MACTable", "packet.Session/", "packet.NameEntry")
+	conn0, nic0 := h.Conn, h.NICInfo
 	err := h.DHCPv4Update(mac, ip, name)
 	vEnsures(VerifSpecSessionOK(h))
+	vEnsures(h.Conn == conn0 && h.NICInfo == nic0) // of the Session's own fields only the two tables change
 	return err
 }
